@@ -23,7 +23,7 @@ DEV_ASSUMPTION = (
     "in-memory block devices ArrW/ArrR/CurW (harness/common.rs) stand for RollingWriter/RollingReader: "
     "zero-prefilled, next_block never fails, a single stream without file boundaries")
 
-HOOK_COMMITS = ["51e6703", "9b45c9b"]
+HOOK_COMMITS = ["51e6703", "9b45c9b", "5309720", "1550565"]
 
 NA_GLUE = ("the deciding mechanism lives in MultiRecordLog / RollingReader / RollingWriter / Directory over std::fs, std::path, "
            "core::fmt and HashMap; symbolic execution of those std bodies does not terminate under CBMC in this sandbox "
@@ -35,7 +35,6 @@ NOT_APPLICABLE = {
     "C01": "restart == replay of the WAL by open_with_prefs over files, roll-over and GC: " + NA_GLUE,
     "C03": "the property is the order of flush / sync_data / sync_directory / remove_file calls issued by multi_record_log.rs and rolling/directory.rs: " + NA_GLUE,
     "C11": "the failing retry loop is the `let Ok(..) else continue` of open_with_prefs, which cannot be executed without RollingReader: " + NA_GLUE,
-    "C13": "'nothing was written and the outcome says 0' is a statement about MultiRecordLog::{create_queue,delete_queue,append_records,truncate} and the writer's I/O: " + NA_GLUE,
     "C14": "lock-step runs of MultiRecordLog under different policies (and Instant::now): " + NA_GLUE,
 }
 
@@ -117,11 +116,13 @@ CHECKS = {
                        "are compared with a sequential reference, byte for byte with symbolic payload bytes; range() additionally with "
                        "symbolic bounds of every RangeBounds shape; a ring-wrap scenario covers all three branches of get_range. "
                        "create/delete/exists/list are checked on the real MemQueues over a map stand-in (c18_iso_q_*: created-and-not-deleted names, "
-                       "AlreadyExists, per-queue records); append_records' position_opt handling is MultiRecordLog glue and not claimed."),
+                       "AlreadyExists, per-queue records). c05_log_*: the real MultiRecordLog (constructed through hooks over stubbed I/O leaves): automatic positions, "
+                       "explicit future positions, a retried last position (acknowledged no-op), an older position (Past), empty batches, batches, truncate counts, "
+                       "checked call by call against a model. Behaviour across restarts is not claimed."),
         "level_note": "trusted: kani-compiler, CBMC, CaDiCaL, the reference queue in harness/mem.rs; <= 4 retained records, payloads <= 3 bytes, concrete positions",
         "filters": ["c05_", "c18_iso_q"],
-        "quick": {"harnesses": [("real", "c05_obs*_q*"), ("real", "c05_ring_wrap_q"), ("real", "c05_big_q*"), ("real", "c05_range_sym_q*"), ("real", "c18_iso_q_0*")], "jobs": 14, "timeout": 900},
-        "thorough": {"harnesses": [("real", "c05_obs*"), ("real", "c05_ring_wrap_q"), ("real", "c05_big_q*"), ("real", "c05_range_sym_*"), ("real", "c18_iso_q_0*")], "jobs": 16, "timeout": 2400},
+        "quick": {"harnesses": [("real", "c05_obs*_q*"), ("real", "c05_ring_wrap_q"), ("real", "c05_big_q*"), ("real", "c05_range_sym_q*"), ("real", "c18_iso_q_0*"), ("real", "c05_log_q*")], "jobs": 14, "timeout": 1200},
+        "thorough": {"harnesses": [("real", "c05_obs*"), ("real", "c05_ring_wrap_q"), ("real", "c05_big_q*"), ("real", "c05_range_sym_*"), ("real", "c18_iso_q_0*"), ("real", "c05_log_*")], "jobs": 16, "timeout": 2400},
         "rule": ("case = one operation script (appends of 0..3 symbolic bytes at next / +1 / +2 / rejected position, truncations at 8 "
                  "relative targets) or one symbolic-bounds range query on a constructed state; lock step with the reference; "
                  "non-trivial = at least two accepted appends; counted from CBMC's symex log"),
@@ -142,12 +143,14 @@ CHECKS = {
                        "script (appends under the current or the next file, truncations; one or two queues sharing three files) "
                        "FileNumber::can_be_deleted() holds exactly for the files in which no retained record of any queue lives, and "
                        "first_file_number() is the file of the oldest retained record; FileTracker (real BTreeSet) hands out for deletion exactly "
-                       "the unreferenced oldest files, oldest first, never the last one. When the GC pass runs and what it unlinks is "
-                       "MultiRecordLog / std::fs glue and not claimed."),
+                       "the unreferenced oldest files, oldest first, never the last one. c06_gc*: the real MultiRecordLog::truncate / delete_queue / "
+                       "run_gc_if_necessary over a log with three files: after every call the tracked files are exactly the contiguous run from the file of "
+                       "the oldest retained record (or the current file) to the current file, disk_used_bytes follows, and one position entry per empty queue is "
+                       "written before files are reclaimed. open(), roll-over and the actual unlink are std::fs and not claimed."),
         "level_note": "trusted: kani-compiler (atomics of Arc treated sequentially), CBMC, CaDiCaL, the ghost map in harness/mem.rs; hook FileNumber::for_verif",
         "filters": ["c06_"],
-        "quick": {"harnesses": [("real", "c06_files*_q*"), ("real", "c06_tracker_q*")], "jobs": 14, "timeout": 900},
-        "thorough": {"harnesses": [("real", "c06_files*"), ("real", "c06_tracker_q*")], "jobs": 16, "timeout": 2400},
+        "quick": {"harnesses": [("real", "c06_files*_q*"), ("real", "c06_tracker_q*"), ("real", "c06_gc*_q*")], "jobs": 14, "timeout": 1200},
+        "thorough": {"harnesses": [("real", "c06_files*"), ("real", "c06_tracker_q*"), ("real", "c06_gc*")], "jobs": 16, "timeout": 2400},
         "rule": ("case = one script over [append same file, append after roll-over, truncate first / middle / last] (x2 queues in the "
                  "files2 family); after each step every file handle is compared with the ghost 'some retained record lives in it'"),
         "samples": ["c06_files_q_004: scripts 28..34 of 5^3, three file handles, one queue", "c06_files2_q_003: scripts 21..27 of 8^2, two queues",
@@ -164,10 +167,10 @@ CHECKS = {
         "level_text": ("Bounded model checking of MemQueue::size/capacity: after every step size() == retained payload bytes + "
                        "n * (per-record constant, measured through the API), size() <= capacity(), and an emptied queue accounts 0. "
                        "MemQueues::size (c18_iso_q_*): used == queue-name BYTES (one name holds a 2-byte character) + payload + n * constant, summed over the queues "
-                       "(map stand-in for the HashMap). resource_usage() of MultiRecordLog is glue and not claimed."),
+                       "(map stand-in for the HashMap); c13_one_*: MultiRecordLog::resource_usage() after every call equals that sum and never exceeds the allocated bytes."),
         "level_note": "trusted: kani-compiler, CBMC, CaDiCaL, reference queue; per-record constant obtained from a one-record queue",
-        "filters": ["c16_", "c18_iso_q"],
-        "quick": {"harnesses": [("real", "c16_size_q*"), ("real", "c16_big_q*"), ("real", "c18_iso_q_00*")], "jobs": 14, "timeout": 900},
+        "filters": ["c16_", "c18_iso_q", "c13_one"],
+        "quick": {"harnesses": [("real", "c16_size_q*"), ("real", "c16_big_q*"), ("real", "c18_iso_q_00*"), ("real", "c13_one_q_00[0-2]")], "jobs": 14, "timeout": 1200},
         "thorough": {"harnesses": [("real", "c16_size*"), ("real", "c16_big_*"), ("real", "c18_iso_q_0*")], "jobs": 16, "timeout": 2400},
         "rule": "case = one script over appends of 0/2/3 (thorough 0..3) bytes and truncations at first / middle / far future; size and capacity compared after each step",
         "samples": ["c16_size_q_010: scripts 90..98 of 6^3", "c16_big_q_1_16: payloads of 1 and 16 symbolic bytes, truncated one by one (evicting < 1/8 of the buffer)"],
@@ -204,12 +207,13 @@ CHECKS = {
         "level_text": ("Bounded model checking of the byte accounting of the writer: at the real 32 KiB geometry, for every start cursor "
                        "< 4 blocks and every entry length <= 3 (thorough 10) blocks, write_record returns exactly the cursor advance, which "
                        "equals padding + one header per frame + payload recomputed by a closed-form reference, is never 0, and write_frame "
-                       "returns padding + header + payload; at B=16 the same with real bytes. That GC bytes are added to the triggering "
-                       "call and that rejected calls report 0 is MultiRecordLog glue and not claimed."),
+                       "returns padding + header + payload; at B=16 the same with real bytes. At the API (c06_gc*, c13_one_*: real MultiRecordLog over stubbed I/O "
+                       "leaves): wal_bytes_written of create / append / truncate / delete equals the advance of the writer's cursor, including the position "
+                       "entries written by garbage collection, and is 0 for no-op and rejected calls."),
         "level_note": "trusted: kani-compiler, CBMC, CaDiCaL; checksum oracle stub; cursor-only block device CurW; Serializable producing n zero bytes",
-        "filters": ["c15_real", "c07_rt_qf"],
-        "quick": {"harnesses": [("real", "c15_real_q*"), ("real", "c15_real_frame_q"), ("16", "c07_rt_qf*")], "jobs": 8, "timeout": 900},
-        "thorough": {"harnesses": [("real", "c15_real_*"), ("16", "c07_rt_qf*")], "jobs": 8, "timeout": 3000, "solvers": ["cadical", "kissat"]},
+        "filters": ["c15_real", "c07_rt_qf", "c06_gc", "c13_one"],
+        "quick": {"harnesses": [("real", "c15_real_q*"), ("real", "c15_real_frame_q"), ("16", "c07_rt_qf*"), ("real", "c06_gc_q*"), ("real", "c06_gc2_q*"), ("real", "c13_one_q_0*")], "jobs": 14, "timeout": 1200},
+        "thorough": {"harnesses": [("real", "c15_real_*"), ("16", "c07_rt_qf*"), ("real", "c06_gc*"), ("real", "c13_one_q_0*")], "jobs": 8, "timeout": 3000, "solvers": ["cadical"]},
         "rule": ("real geometry: one query with symbolic (start, len); small geometry: 18 (alignment, length, follower) cases with real bytes; "
                  "non-trivial witnesses are cover properties (>= 4 frames, padding, empty first frame, exact block end, empty entry)"),
         "samples": ["c15_real_q: start < 131072, len <= 98304 symbolic; assert n == end-start == ref_entry_footprint(start,len) > 0",
@@ -280,9 +284,9 @@ CHECKS = {
                        "truncation of it is either rejected or a whole number of leading items. That append_records puts the whole batch "
                        "into ONE entry and applies it after the write is MultiRecordLog glue and not claimed."),
         "level_note": "trusted: kani-compiler, CBMC, CaDiCaL; ideal-checksum oracle; from_utf8 stub; forking cases cut one call after the failure (B18)",
-        "filters": ["c12_", "c08_crc_"],
+        "filters": ["c12_", "c08_crc_", "c13_one_q_003"],
         "codegen_groups": {"16": [["c08_crc_"], ["c12_"]]},
-        "quick": {"harnesses": [("16", "c12_ent_*_q*"), ("16", "c12_cut_q*"), ("16", "c08_crc_*_q*"), ("real", "c12_batch_q*")], "jobs": 14, "timeout": 1500},
+        "quick": {"harnesses": [("16", "c12_ent_*_q*"), ("16", "c12_cut_q*"), ("16", "c08_crc_*_q*"), ("real", "c12_batch_q*"), ("real", "c13_one_q_003")], "jobs": 14, "timeout": 1500},
         "thorough": {"harnesses": [("16", "c12_ent_*"), ("16", "c12_big_*"), ("16", "c12_cut_*"), ("real", "c12_batch_*")], "jobs": 8, "timeout": 3600, "mem_gb": 16},
         "rule": "case = (frame of the large entry, damage kind, variant) or (cut offset) or (batch shape, truncation point); counted from the symex log",
         "samples": ["c12_ent_len_q_a_f3: lengths (5,20,1): entry 1 = First+Middle+Last; Last frame: length -> 0, 1, 3, 16, 0xffff",
@@ -341,12 +345,13 @@ CHECKS = {
                        "verification guard, by an association list because hashbrown cannot be executed symbolically): every pair -- thorough: every "
                        "triple -- of operations {create, delete, append, truncate} addressed to two queues; after every operation each queue's "
                        "existence, next position and records (positions, symbolic payload bytes) are compared with its own reference model, so an "
-                       "operation addressed to one queue that changes what the other returns is a counterexample. Only the live, in-memory half of the "
-                       "property: restarts, file deletion triggered by the other queue and crash recovery are MultiRecordLog glue and not claimed."),
+                       "operation addressed to one queue that changes what the other returns is a counterexample. c06_gc2*: the same on the real MultiRecordLog while "
+                       "a truncation or deletion of one queue makes garbage collection reclaim files (the other queue keeps its records and its file). "
+                       "Restarts and crash recovery are not claimed."),
         "level_note": "trusted: kani-compiler, CBMC, CaDiCaL; the 60-line association-list stand-in for HashMap (src/lib.rs verif_map, guarded); operations are only issued to queues that exist (an Err(MissingQueue) value makes symex fork on a garbage reference, DESIGN B17)",
-        "filters": ["c18_"],
-        "quick": {"harnesses": [("real", "c18_iso*_q*")], "jobs": 14, "timeout": 900},
-        "thorough": {"harnesses": [("real", "c18_iso*")], "jobs": 16, "timeout": 2400},
+        "filters": ["c18_", "c06_gc2"],
+        "quick": {"harnesses": [("real", "c18_iso*_q*"), ("real", "c06_gc2*_q*")], "jobs": 14, "timeout": 1200},
+        "thorough": {"harnesses": [("real", "c18_iso*"), ("real", "c06_gc2*")], "jobs": 16, "timeout": 2400},
         "rule": "case = one script over [create a, delete a, append a, truncate a, create b, delete b, append b, truncate b] (base-8 digits); after each step both queues are observed; counted from the symex log",
         "samples": ["c18_iso_q_002: scripts 16..23 of 8^2 (append a followed by each of the eight operations)", "c18_iso3_q_003: scripts 152..159 of 8^3"],
         "functions": ["mem::queues::MemQueues::{create_queue,delete_queue,append_record,truncate,range,next_position,contains_queue,list_queues,size,ack_position}",
@@ -354,5 +359,33 @@ CHECKS = {
         "bounds": {"quick": {"queues": 2, "script_length": "2 (all 64), 3 (64 of 512)"}, "thorough": {"script_length": "3 (all 512)"}},
         "outside": ["restarts / crash recovery / GC-triggered file deletion (MultiRecordLog)", "std HashMap itself", "more than two queues", "operations on missing queues (error values)"],
         "assumptions": ["HashMap<String, MemQueue> replaced by an insertion-ordered association list with the same observable behaviour for the methods MemQueues uses"],
+    },
+
+    "C13": {
+        "design_ref": "DESIGN.md section 4, C13",
+        "technique": "bounded model checking of the compiled Rust (Kani/CBMC): the real MultiRecordLog over stubbed I/O leaves, call scripts against a model",
+        "level_text": ("Bounded model checking of the real MultiRecordLog (constructed through guarded hooks over stubbed I/O leaf functions): on a log "
+                       "with two queues, three files and retained records, every single call and every call following a no-op / rejected call -- create of an "
+                       "existing queue, append with the last position (no-op), with an older position (Past), empty batch -- is executed; for the rejected and "
+                       "no-op calls the writer's cursor does not move, the outcome reports 0 bytes and no position, and every observable (queues, positions, "
+                       "records, memory and disk usage) equals the model that ignored the call. 'No effect after a restart' follows from the unchanged cursor "
+                       "only together with C07/C02 and is not claimed here; calls on MISSING queues are not executed (their error value makes symex fork, B17)."),
+        "level_note": "trusted: kani-compiler, CBMC, CaDiCaL; I/O leaf stubs; association-list stand-in for HashMap; hooks MultiRecordLog::verif_new / RollingWriter::verif_new / Directory::verif_new",
+        "filters": ["c13_"],
+        "quick": {"harnesses": [("real", "c13_one_q*"), ("real", "c13_two_q*")], "jobs": 14, "timeout": 1500},
+        "thorough": {"harnesses": [("real", "c13_one_q*"), ("real", "c13_two_*")], "jobs": 16, "timeout": 3000},
+        "rule": ("case = one script of 1 or 2 calls over [create a, append a None / future / last (no-op) / older (Past) / empty batch / batch of 2, truncate a first / future, "
+                 "create bq, append bq]; after every call the cursor, the outcome and all observables are compared with the model; counted from the symex log"),
+        "samples": ["c13_one_q_002: scripts 4..5 of 11: append(Some(last-1)) -> Past, cursor unchanged; empty batch -> Ok(None, 0 bytes)",
+                    "c13_two_q_004: scripts 45..47 of 121: append(Some(last)) [no-op] followed by append(None) / future / last"],
+        "functions": ["multi_record_log::MultiRecordLog::{create_queue,delete_queue,append_record,append_records,truncate,run_gc_if_necessary,record_empty_queues_position,persist,persist_on_policy,range,last_position,queue_exists,list_queues,resource_usage}",
+                      "mem::queues::MemQueues::* (map stand-in)", "recordlog::writer::RecordWriter::write_record", "frame::writer::FrameWriter::write_frame",
+                      "rolling::directory::{RollingWriter::{write (non-rolling path),persist,current_file,size}, Directory::{has_files_that_can_be_deleted,gc}}", "rolling::file_number::FileTracker::*",
+                      "record::{MultiPlexedRecord::serialize, MultiRecord::{serialize,new_unchecked,next}}", "persist_policy::PersistState::{should_persist,update_persisted}"],
+        "bounds": {"quick": {"queues": 2, "files": 3, "script_length": "1 (all 11), 2 (33 of 121: a no-op / rejected call first)"}, "thorough": {"script_length": "2 (all 121)"}},
+        "outside": ["calls on missing queues (MissingQueue errors)", "effect after a restart (open/replay)", "roll-over, crash, persist policies other than Always(Flush)"],
+        "assumptions": ["MultiRecordLog constructed through guarded hooks (no directory scan, no replay): three tracked files, writer on the last one at offset 1000, queues as a replay would have left them",
+                        "I/O leaves stubbed: <File as Write>::write and File::sync_data return Ok, std::fs::remove_file returns Ok, Directory::sync_directory skipped (guarded hook), rolling::directory::filepath returns an empty path (format! is not executable); crc32 constant",
+                        "HashMap<String, MemQueue> replaced by an association list (guarded hook); calls that would return Err(MissingQueue) are not issued (B17)"],
     },
 }
